@@ -260,6 +260,43 @@ var prCorpus = [][]string{
 	{"pr trigger 3", "pr trigger 4", "pr on", "pr was"},
 }
 
+// genPRLong: many registrations, most of them unsubscribed again, then Trigger.  The callback collection is a
+// shrinkingmap (default policy: shrink = rebuild the map once >= 100 keys were deleted and deleted/size >= 10), so the
+// few callbacks that are left have survived at least one rebuild and must still run exactly once.
+func genPRLong(rng *hx.Rng, twin string) []string {
+	var ops []string
+	n := 115 + rng.Intn(50)
+	for i := 0; i < n; i++ {
+		if rng.Chance(1, 8) {
+			ops = append(ops, twin+" on nest")
+		} else {
+			ops = append(ops, twin+" on")
+		}
+	}
+	perm := make([]int, n)
+	for i := range perm {
+		perm[i] = i
+	}
+	for i := n - 1; i > 0; i-- {
+		j := rng.Intn(i + 1)
+		perm[i], perm[j] = perm[j], perm[i]
+	}
+	keep := 1 + rng.Intn(9)
+	for _, h := range perm[:n-keep] {
+		ops = append(ops, fmt.Sprintf("%s unsub %d", twin, h))
+		if rng.Chance(1, 30) {
+			ops = append(ops, twin+" on") // registrations between the deletions (after a rebuild, too)
+		}
+	}
+	arg := "0"
+	if twin == "pr" {
+		arg = fmt.Sprint(1 + rng.Intn(8))
+	}
+	ops = append(ops, twin+" was", twin+" trigger "+arg, twin+" was", twin+" on", twin+" unsub "+fmt.Sprint(perm[n-1]), twin+" trigger "+arg)
+
+	return ops
+}
+
 // genP0 generates a history for the parameterless promise.Event.
 func genP0(rng *hx.Rng, n int) []string {
 	ops := genPR(rng, n)
